@@ -63,7 +63,7 @@ def generate(rng, tier, idx):
             pts.append([rng.choice([0.001, 0.01, 0.99, 0.999, 0.5]) for _ in range(d)])
         else:
             pts.append([round(rng.uniform(0.02, 0.98), 4) for _ in range(d)])
-    samples = [rng.choice([1, 3, 5])]
+    samples = [rng.choice([1, 3, 5, 0])]
     if d == 2 and rng.random() < (0.5 if thorough else 0.12):
         samples.append(2000)
     elif d == 2:
